@@ -142,7 +142,7 @@ CHECKS = {
         "timeout": {"quick": 1200, "thorough": 14000},
     },
     "C06": {
-        "scenarios": [("C06-replay", "vsim"), ("C06-cross", "vsim"), ("C06-mux", "vsim"), ("C06-fresh", "vsim"), ("C06-cache", "vsim"), ("C06-conc", "vrace")],
+        "scenarios": [("C06-replay", "vsim"), ("C06-cross", "vsim"), ("C06-mux", "vsim"), ("C06-fresh", "vsim"), ("C06-nonce", "vsim"), ("C06-cache", "vsim"), ("C06-conc", "vrace")],
         "races": True,
         "rule": "(a) end to end: a genuine session is recorded at the network boundary and replayed from a foreign address (whole "
                 "stream / prefix at a segment boundary / first segment; 1-3 times; 0..179 s later; original open or closed; with or "
@@ -151,7 +151,9 @@ CHECKS = {
                 "the same server port (TCP recording as UDP datagrams, UDP recording as a TCP stream), first write below and above the "
                 "piggy-back limit, with low-entropy patterns; (a2) UDP: the handshake (or all datagrams) of a LATER session multiplexed on "
                 "an existing association, re-sent from a foreign address 0..70 s after that session was closed; (a3) series of 3-6 "
-                "fresh genuine connections by clients whose nonce has a fixed 8-12 byte prefix must all be served; (b) replay.NewCache with capacity 1..8 and interval 2..10 virtual seconds under "
+                "fresh genuine connections by clients whose nonce has a fixed 8-12 byte prefix must all be served; (a4) 300000 fresh first "
+                "segments per case produced by the real cipher under a fixed nonce prefix of 0/4/8/12 bytes, looked up as the stream "
+                "server does: none may be flagged; (b) replay.NewCache with capacity 1..8 and interval 2..10 virtual seconds under "
                 "300-operation random histories checked against an executable specification with a strict and a lenient capacity "
                 "bound; (c) concurrent IsDuplicate histories (2-8 goroutines) checked for linearizability with porcupine under the "
                 "race detector; distinct = hash of the case parameters",
